@@ -353,7 +353,7 @@ func genFlowDesc(root, outdir string) {
 	if len(swapExprs) != 1 {
 		die("%s: newSdfFilter: expected exactly one newFlowDesc call", gfile)
 	}
-	o.p("Definition fd_sdf_swap_when : string := %s.", strconv.Quote(swapExprs[0]))
+	o.p("Definition fd_sdf_swap_when : string := %s.", coqStr(swapExprs[0]))
 
 	cs := mustFunc(g, gfile, "", "convertSlice")
 	var shifts, strides []int64
